@@ -10,7 +10,9 @@
 
    prog[r] = [plain (1: ordinary function body), inv (1: the function takes inval), code]
    instr   = [op, t (target), v (value), c (1: the body catches an exception of this API call)]
-     yn v (yield the number v/8) | yv v (yield a string) | ret | raise | yar v (raise YieldAndReset)
+     yn v (yield the number v/8) | yv v (yield a string) | ret | yar v (raise YieldAndReset)
+     raise v (fail with an exception of class ExcClass(v): an Exception subclass, a user class deriving from
+     BaseException only, KeyboardInterrupt, SystemExit, GeneratorExit - the failure rule does not depend on it)
      alw v (raise AlwaysYield) | next|stop|pause|resume|reset|play t | wait c | signal|unhang c
      settest c v | fget f | fset f v | embed t (yield from t.__embed__(): yield every value of t until
      it raises StopStream, passing the received invals on)
@@ -46,6 +48,10 @@ Unbound == V("unbound", 0)
 Ret(val) == [k |-> "ret", x |-> val.x, v |-> val.v]
 Exc(cls) == [k |-> "exc", x |-> cls, v |-> 0]
 Out(k, x, val) == [k |-> k, x |-> x, v |-> val]
+\* the kinds of exception a body may fail with
+ExcClass(v) == CASE v = 1 -> "BaseBoom" [] v = 2 -> "KeyboardInterrupt" [] v = 3 -> "SystemExit" [] v = 4 -> "GeneratorExit"
+                 [] OTHER -> "Boom"
+NotAnException(cls) == cls \in {"BaseBoom", "KeyboardInterrupt", "SystemExit", "GeneratorExit"}   \* BaseException only
 RS(state, pc, term) == [state |-> state, pc |-> pc, term |-> term, mid |-> FALSE, pend |-> <<>>]
     \* mid: suspended inside an embed loop; pend: pending actions of the finally blocks being executed
     \* (pc = 1 /\ ~mid) <=> the routine has no live generator
@@ -158,7 +164,7 @@ RunBody(s, r, i, pd, iv, res, mode) ==
       CASE ins.op = "yn" -> IF fm THEN Ignored(s) ELSE Suspend(s, r, i + 1, pd, FALSE, V("num", ins.v))
         [] ins.op = "yv" -> IF fm THEN Ignored(s) ELSE Suspend(s, r, i + 1, pd, FALSE, V("str", ins.v))
         [] ins.op = "ret" -> Throw(s, r, i, pd, Out("ret", "", NoneV), iv, mode)
-        [] ins.op = "raise" -> Throw(s, r, i, pd, Out("raise", "Boom", NoneV), iv, mode)
+        [] ins.op = "raise" -> Throw(s, r, i, pd, Out("raise", ExcClass(ins.v), NoneV), iv, mode)
         [] ins.op = "yar" -> Throw(s, r, i, pd, Out("raise", "YieldAndReset", V("num", ins.v)), iv, mode)
         [] ins.op = "alw" -> Throw(s, r, i, pd, Out("raise", "AlwaysYield", V("num", ins.v)), iv, mode)
         [] ins.op = "try" -> RunBody(s, r, i + 1, pd, iv, FALSE, mode)
@@ -262,6 +268,7 @@ Tick(s) ==      \* one iteration of the NRT scheduler loop: pop the earliest tas
              s1 == [s EXCEPT !.q = Tail(@), !.secs["main"] = e.t]
              a == Api(s1, "next", e.r, 0, V("tuple", 0))
          IN IF a.res.k = "ret" /\ a.res.x = "num" THEN R2(Schedule(a.st, e.t + a.res.v, e.r), Ret(NoneV))
+            ELSE IF a.res.k = "exc" /\ NotAnException(a.res.x) THEN R2(a.st, Exc(a.res.x))   \* e.g. KeyboardInterrupt: not the clock's to swallow
             ELSE R2(a.st, Ret(NoneV))               \* StopStream ends the task; other errors are logged
 Ext(s, e) ==
     LET s0 == [s EXCEPT !.log = <<>>, !.calls = <<>>, !.ab = 0] IN
@@ -343,7 +350,7 @@ P(plain, inv, code) == [plain |-> plain, inv |-> inv, code |-> code]
 ScriptsOver(vocab, maxlen) == UNION {[1..k -> vocab] : k \in 0..maxlen}
 
 \* instruction vocabularies of the configurations
-VocabFlow == {I("yn", "", 8, 0), I("yv", "", 3, 0), I("raise", "", 0, 0), I("yar", "", 4, 0), I("alw", "", 2, 0)}
+VocabFlow == {I("yn", "", 8, 0), I("yv", "", 3, 0), I("raise", "", 0, 0), I("raise", "", 2, 0), I("yar", "", 4, 0), I("alw", "", 2, 0)}
 VocabNest == {I("yn", "", 8, 0), I("embed", "r2", 0, 0), I("next", "r2", 0, 0), I("next", "r2", 0, 1), I("next", "r1", 0, 1),
               I("stop", "r1", 0, 1), I("stop", "r2", 0, 0), I("reset", "r2", 0, 0), I("pause", "r2", 0, 0),
               I("play", "r2", 0, 0)}
@@ -357,7 +364,7 @@ R2Bodies == {P(0, 1, <<I("yn", "", 4, 0), I("raise", "", 0, 0)>>),
 TryA == {<<I("yn", "", 8, 0)>>, <<I("yn", "", 8, 0), I("yn", "", 4, 0)>>, <<I("yn", "", 8, 0), I("raise", "", 0, 0)>>,
          <<I("next", "r2", 0, 0), I("yn", "", 8, 0)>>, <<I("yn", "", 8, 0), I("ret", "", 0, 0)>>, <<I("yar", "", 4, 0)>>}
 TryB == {I("yv", "", 1, 0), I("stop", "r1", 0, 1), I("stop", "r2", 0, 1), I("reset", "r1", 0, 0), I("pause", "r2", 0, 0),
-         I("raise", "", 0, 0), I("next", "r2", 0, 1), I("ret", "", 0, 0)}
+         I("raise", "", 4, 0), I("next", "r2", 0, 1), I("ret", "", 0, 0)}
 TryAq == {<<I("yn", "", 8, 0)>>, <<I("yn", "", 8, 0), I("raise", "", 0, 0)>>, <<I("next", "r2", 0, 0), I("yn", "", 8, 0)>>,
           <<I("yn", "", 8, 0), I("ret", "", 0, 0)>>}
 TryScriptsOver(A, tails) ==
@@ -378,12 +385,12 @@ Progs ==
       [] ProgSel = 3 -> {[r \in {"r1", "r2"} |-> IF r = "r1" THEN P(0, 1, s) ELSE b] :
                           s \in ScriptsOver(VocabCond, MaxLen), b \in R2Bodies}
       [] ProgSel = 4 -> {[r \in {"r1", "r2"} |-> IF r = "r1" THEN P(1, 0, s) ELSE b] :
-                          s \in ScriptsOver({x \in VocabNest : x.op \notin {"yn", "embed"}} \cup {I("raise", "", 0, 0), I("alw", "", 2, 0)}, MaxLen),
+                          s \in ScriptsOver({x \in VocabNest : x.op \notin {"yn", "embed"}} \cup {I("raise", "", 1, 0), I("alw", "", 2, 0)}, MaxLen),
                           b \in R2Bodies}
       [] ProgSel = 6 -> {[r \in {"r1", "r2", "r3"} |-> P(0, 1, IF r = "r1" THEN s1 ELSE IF r = "r2" THEN s2 ELSE s3)] :
                           s1 \in ScriptsOver({I("yn", "", 8, 0), I("next", "r2", 0, 0), I("next", "r2", 0, 1), I("embed", "r2", 0, 0)}, MaxLen),
                           s2 \in ScriptsOver({I("yn", "", 4, 0), I("next", "r3", 0, 0), I("next", "r3", 0, 1), I("next", "r1", 0, 1)}, MaxLen),
-                          s3 \in ScriptsOver({I("yn", "", 2, 0), I("raise", "", 0, 0), I("stop", "r1", 0, 1), I("wait", "c1", 0, 0)}, MaxLen)}
+                          s3 \in ScriptsOver({I("yn", "", 2, 0), I("raise", "", 3, 0), I("stop", "r1", 0, 1), I("wait", "c1", 0, 0)}, MaxLen)}
       [] ProgSel = 7 -> {[r \in {"r1", "r2"} |-> IF r = "r1" THEN P(0, 1, s1) ELSE P(0, 0, s2)] :
                           s1 \in TryScriptsOver(TryAq, {<<>>}), s2 \in TryPartnerQ}
       [] ProgSel = 9 -> {[r \in {"r1", "r2"} |-> IF r = "r1" THEN P(0, 1, s1) ELSE P(0, 0, s2)] :
@@ -392,7 +399,7 @@ Progs ==
                             IF r = "r1" THEN P(0, 1, <<I("try", "", 0, 0), I("yn", "", 8, 0), I("raise", "", 0, 0), I("except", "", 0, 0), I("yv", "", 1, 0),
                                                        I("endx", "", 0, 0), I("yn", "", 2, 0)>>)
                             ELSE P(0, 0, <<I("try", "", 0, 0), I("yn", "", 4, 0), I("finally", "", 0, 0), I("stop", "r1", 0, 1),
-                                           I("stop", "r2", 0, 1), I("raise", "", 0, 0), I("endf", "", 0, 0)>>)]}
+                                           I("stop", "r2", 0, 1), I("raise", "", 2, 0), I("endf", "", 0, 0)>>)]}
       [] ProgSel = 5 -> {[r \in {"r1", "r2"} |->
                             IF r = "r1" THEN P(0, 1, <<I("next", "r1", 0, 1), I("stop", "r1", 0, 1), I("wait", "c1", 0, 0),
                                                        I("next", "r2", 0, 1), I("fget", "f1", 0, 0), I("yar", "", 4, 0)>>)
@@ -400,7 +407,7 @@ Progs ==
 Conds == {"c1"}
 Flows == {"f1"}
 
-NWitness == 27
+NWitness == 28
 WitnessInit == \A i \in 1..NWitness : TLCSet(i, FALSE)      \* registers of the vacuity guard (see the end)
 Init == /\ prog \in Progs
         /\ WitnessInit
@@ -471,7 +478,9 @@ Witnesses == <<
     \E i \in 1..Len(st.log) : st.log[i].fm /\ st.log[i].ev = "call" /\ st.log[i].r = "r2" /\ st.calls # <<>>
          /\ AnyCall(LAMBDA c : c.op = "stop" /\ c.t = "r2" /\ Len(c.stack) = 1 /\ c.pre = "Suspended"),
     AnyCall(LAMBDA c : c.op = "reset" /\ c.pre \in {"Suspended", "Paused"}),
-    \E i \in 1..Len(st.log) : ~st.log[i].fm /\ st.log[i].ev = "caught" /\ st.log[i].x = "Boom" >>
+    \E i \in 1..Len(st.log) : ~st.log[i].fm /\ st.log[i].ev = "caught" /\ st.log[i].x = "Boom",
+    \* a body failed with a BaseException that is not an Exception
+    AnyCall(LAMBDA c : c.op = "next" /\ c.res.k = "exc" /\ NotAnException(c.res.x) /\ c.post = "Done") >>
 WitnessInv == Len(Witnesses) = NWitness /\ \A i \in 1..NWitness : Witnesses[i] => TLCSet(i, TRUE)
 WitnessPost == \A i \in 1..NWitness : PrintT(<<"WITNESS", i, TLCGet(i)>>)
 =============================================================================
